@@ -49,28 +49,13 @@ inline Value ev(const char *name) {
 static int g_run = -1;
 static const char *g_scen = "";
 
-// SIGALRM in the child: the wall-clock budget is exhausted.  Log where the call is stuck (function names of the
-// innermost library frames) so that a hang can be told apart from another hang, then leave.
+static int g_btfd = -1;
+// SIGALRM in the child: the wall-clock budget is exhausted.  Only async-signal-safe work here (the interrupted code may hold
+// the allocator lock): dump the raw backtrace to a pre-opened file descriptor and leave; the parent classifies it.
 inline void onAlarm(int) {
   void *frames[48];
   int n = backtrace(frames, 48);
-  char **syms = backtrace_symbols(frames, n);
-  std::string stack;
-  int kept = 0;
-  for (int i = 0; i < n && kept < 6; ++i) {
-    std::string sline = syms ? syms[i] : "";
-    size_t a = sline.find("(_ZN");
-    if (a == std::string::npos) continue;
-    size_t b = sline.find_first_of("+)", a);
-    std::string name = sline.substr(a + 1, b == std::string::npos ? std::string::npos : b - a - 1);
-    if (name.find("coloquinte") == std::string::npos && name.find("Transportation") == std::string::npos) continue;
-    stack += name + " ";
-    ++kept;
-  }
-  Value v = ev("Timeout");
-  const char *hang = stack.find("TransportationSuccessiveShortestPath") != std::string::npos ? "transport-ssp" : "other";
-  v.set("run", g_run).set("scen", g_scen).set("stderr", stack).set("kind", "alarm").set("hang", hang);
-  emit(v);
+  if (g_btfd >= 0) backtrace_symbols_fd(frames, n, g_btfd);
   _exit(4);
 }
 
@@ -116,6 +101,11 @@ inline bool forked(int run, int timeoutSec, const std::string &errPath, const st
     std::set_terminate(onTerminate);
     g_run = run;
     g_scen = scen;
+    g_btfd = ::open((errPath + ".bt").c_str(), O_WRONLY | O_CREAT | O_TRUNC, 0644);
+    {
+      void *warm[4];
+      backtrace(warm, 4);  // loads the unwinder now, not inside the signal handler
+    }
     signal(SIGALRM, onAlarm);
     int dn = ::open("/dev/null", O_WRONLY);
     if (dn >= 0) dup2(dn, 1);
@@ -127,17 +117,52 @@ inline bool forked(int run, int timeoutSec, const std::string &errPath, const st
     _exit(0);
   }
   int status = 0;
-  waitpid(pid, &status, 0);
+  {
+    // watchdog: the child's own alarm should end it; if it cannot (handler blocked), kill it a little later
+    long waitedMs = 0;
+    while (true) {
+      pid_t r = waitpid(pid, &status, WNOHANG);
+      if (r == pid) break;
+      usleep(5000);
+      waitedMs += 5;
+      if (waitedMs > (long)(timeoutSec + 15) * 1000) {
+        kill(pid, SIGKILL);
+        waitpid(pid, &status, 0);
+        break;
+      }
+    }
+  }
   if (WIFEXITED(status) && WEXITSTATUS(status) == 0) return true;
+  if (WIFEXITED(status) && WEXITSTATUS(status) == 4) {
+    // alarm: classify the hang from the innermost library frames of the dumped backtrace
+    std::ifstream bt(errPath + ".bt");
+    std::string sline, stack;
+    int kept = 0;
+    while (kept < 6 && std::getline(bt, sline)) {
+      size_t a = sline.find("(_ZN");
+      if (a == std::string::npos) continue;
+      size_t b = sline.find_first_of("+)", a);
+      std::string name = sline.substr(a + 1, b == std::string::npos ? std::string::npos : b - a - 1);
+      if (name.find("coloquinte") == std::string::npos && name.find("Transportation") == std::string::npos) continue;
+      stack += name + " ";
+      ++kept;
+    }
+    Value v = ev("Timeout");
+    const char *hang = stack.find("TransportationSuccessiveShortestPath") != std::string::npos ? "transport-ssp" : "other";
+    v.set("run", run).set("scen", scen).set("stderr", stack).set("kind", "alarm").set("hang", hang).set("san", "none");
+    emit(v);
+    ::unlink((errPath + ".bt").c_str());
+    return false;
+  }
   Value v;
-  if (WIFSIGNALED(status) && WTERMSIG(status) == SIGALRM) {
+  if (WIFSIGNALED(status) && (WTERMSIG(status) == SIGALRM || WTERMSIG(status) == SIGKILL)) {
     v = ev("Timeout");
     v.set("hang", "unknown");
   } else if (WIFEXITED(status) && (WEXITSTATUS(status) == 97 || WEXITSTATUS(status) == 98 || WEXITSTATUS(status) == 96)) {
     v = ev("Sanitizer");
     v.set("kind", WEXITSTATUS(status) == 97 ? "asan" : WEXITSTATUS(status) == 98 ? "ubsan" : "tsan");
-  } else if (WIFEXITED(status) && (WEXITSTATUS(status) == 3 || WEXITSTATUS(status) == 4)) {
-    return false;  // terminate / alarm handler already logged
+  } else if (WIFEXITED(status) && WEXITSTATUS(status) == 3) {
+    return false;  // terminate handler already logged
   } else if (WIFEXITED(status) && WEXITSTATUS(status) == 2) {
     v = ev("HarnessError");
   } else {
